@@ -830,6 +830,20 @@ def hardening():
         ("B:missing-vs-None-detail", [Metadata(details={}), Metadata(details={"x": None}), Metadata(risk_basis=None)]),
     ]:
         out.append((nm, tri(ms)))
+    # None stored in one slice vs the key ABSENT in another (dict.get's default), both sort orders, details and
+    # loss_details, two and three slices, plus a None genuinely shared by all slices
+    for nm, ms in [
+        ("E:None-bearing-sorts-first", [Metadata(country="A", details={"x": None}), Metadata(country="B", details={})]),
+        ("E:None-bearing-sorts-last", [Metadata(country="B", details={"x": None}), Metadata(country="A", details={})]),
+        ("E:None-loss_detail-first", [Metadata(country="A", loss_details={"x": None, "y": 1}), Metadata(country="B", loss_details={"y": 1})]),
+        ("E:None-loss_detail-last", [Metadata(country="B", loss_details={"x": None, "y": 1}), Metadata(country="A", loss_details={"y": 1})]),
+        ("E:None-first-of-three", [Metadata(country="A", details={"x": None, "k": "v"}), Metadata(country="B", details={"k": "v"}),
+                                   Metadata(country="C", details={"x": None, "k": "v"})]),
+        ("E:None-shared-by-all", [Metadata(country="A", details={"x": None}, loss_details={"z": None}),
+                                  Metadata(country="B", details={"x": None}, loss_details={"z": None})]),
+        ("E:None-vs-absent-same-attrs", [Metadata(details={"a": None, "b": 2}), Metadata(details={"b": 2, "c": None})]),
+    ]:
+        out.append((nm, tri(ms)))
     # C: calendar corners far from the generator's years
     for y in (2240, 2400, 1904, 2100):
         ps_ = [(D(y, 1, 1), D(y, 1, 31)), (D(y, 2, 1), D(y, 3, 1) - ONE), (D(y, 3, 1), D(y, 3, 31))]
